@@ -196,6 +196,7 @@ def destinations(ctx, rid, copy_sites):
     if len(recs) < 3:
         ctx.undecided(rid, None, "expected the three record literals of the rebuild readers (single, v1 multi-file, v2 leaf), found %d" % len(recs))
     n = 0
+    resolved = []
     for fn, call, dst in copy_sites:
         x = dst
         # strip  _contained(dest, X) / os.path.join(dest, X): the part below the destination root
@@ -211,6 +212,21 @@ def destinations(ctx, rid, copy_sites):
         else:
             ctx.undecided(rid, fn, "destination `%s` is not of the form <under the destination root>(dest, relative path)" % norm(dst), call)
             continue
+        # a helper that receives the relative path as a parameter (place(source, dest, relpath)): judged at its call sites
+        work, seen_w = [(fn, call, rel, 0)], set()
+        while work:
+            f_, c_, r_, d_ = work.pop()
+            if isinstance(r_, ast.Name) and r_.id in [p for p in f_.params if p != f_.self_name] and d_ < 3 \
+                    and not any(w == "value" for w, _ in ctx.res.bindings(f_).get(r_.id, [])):
+                outer = [(cl, cs, bd) for cl, cs, bd in ctx.res.callsites_of(f_) if cl is not None and cl.module.name == "torrentfile.rebuild"]
+                if outer and all(r_.id in bd for _, _, bd in outer):
+                    for cl, cs, bd in outer:
+                        if id(cs) not in seen_w:
+                            seen_w.add(id(cs))
+                            work.append((cl, cs, bd[r_.id], d_ + 1))
+                    continue
+            resolved.append((f_, c_, r_))
+    for fn, call, rel in resolved:
         # which record does the relative path read?  a local bound to a record (dict) or a node object carrying its fields
         names = {a.id for a in ast.walk(rel) if isinstance(a, ast.Name)}
         for kind, rfn, lit, fields in recs:
